@@ -8,6 +8,7 @@ class EngineProp(PropBase):
     coq_imports = ['PV.Model.EngineObs']
     profile = {}
     n_cases = {'quick': 600, 'thorough': 20000}
+    case_timeout = 30
     engine_trusted = [
         'CPython exception semantics (try/except/finally ordering, exception identity) are MODELLED '
         'as outcomes in Model/Engine.v and validated only by the correspondence run',
